@@ -1596,6 +1596,57 @@ def case_optimized_interpreters(ctx, lo, hi):
         zoo.close()
 
 
+def case_odd_input_files(ctx):
+    """Input files that are small but ask for care: a legal DIMACS file whose problem line declares 10^15 (2^60)
+    variables and one (no) clause -- copying it needs no memory to speak of; graph files named *.gz holding a valid gzip
+    stream, a stream cut short, a stream with damaged data, plain text, nothing.  Real processes; a formula or a
+    shielded error, never a traceback."""
+    import gzip
+    oc.selfcheck()
+    zoo = Zoo()
+    try:
+        root = zoo.root
+        files = {"huge1.cnf": b"p cnf 1000000000000000 1\n1 -2 0\n", "huge2.cnf": b"c nothing to say\np cnf 1152921504606846976 0\n"}
+        for stem, text in (("g.kthlist", KTH_SIMPLE), ("g.gml", GML_SIMPLE), ("d.kthlist", KTH_DAG), ("b.matrix", MATRIX_BIP)):
+            raw = gzip.compress(text.encode("utf-8"))
+            files[stem + ".gz"] = raw
+            files["cut-" + stem + ".gz"] = raw[: max(12, len(raw) // 2)]
+            files["bad-" + stem + ".gz"] = raw[:14] + bytes((b ^ 0x5a) for b in raw[14:-8]) + raw[-8:]
+            files["text-" + stem + ".gz"] = text.encode("utf-8")
+            files["empty-" + stem + ".gz"] = b""
+        for name, content in files.items():
+            with open(os.path.join(root, name), "wb") as f:
+                f.write(content)
+        runs = []
+        for tool in ("cnfgen", "pbgen"):
+            for h in ("huge1.cnf", "huge2.cnf"):
+                runs.append((tool, ["-q", "dimacs", os.path.join(root, h)], "copy"))
+                runs.append((tool, ["-q", "-of", "opb", "dimacs", os.path.join(root, h)], "copy"))
+            for pre in ("", "cut-", "bad-", "text-", "empty-"):
+                runs.append((tool, ["-q", "kcolor", "2", os.path.join(root, pre + "g.kthlist.gz")], "graph"))
+                runs.append((tool, ["-q", "kcolor", "2", "gml", os.path.join(root, pre + "g.gml.gz")], "graph"))
+                runs.append((tool, ["-q", "peb", os.path.join(root, pre + "d.kthlist.gz")], "graph"))
+                runs.append((tool, ["-q", "php", os.path.join(root, pre + "b.matrix.gz")], "graph"))
+        for pre in ("", "cut-", "bad-"):
+            runs.append(("cnfgen", ["-q", "php", "3", "2", "-T", "xorcomp", os.path.join(root, pre + "b.matrix.gz")], "graph"))
+        for tool, argv, what in runs:
+            o = spawn(tool, argv, "", cwd=root, env=SPAWN_ENV, timeout=120)
+            ctx.count("odd_input_file_runs")
+            label = "%s %s" % (tool, " ".join(a.replace(root, "<dir>") for a in argv))
+            if oc.TRACEBACK in o.err:
+                et = o.err.strip().split("\n")[-1].split(":")[0]
+                ctx.violation("%s:%s:unhandled:%s" % (tool, "dimacs-with-huge-declared-size" if what == "copy" else "gz-named-graph-file", et),
+                              "%s terminates through an unhandled exception: %r" % (label, o.err[-300:]), tool=tool, argv=argv)
+            elif what == "copy" and (o.rc != 0 or not any(t in o.out for t in ("1000000000000000", "1152921504606846976"))):
+                ctx.violation("%s:dimacs-with-huge-declared-size:not-copied" % tool, "%s: exit status %r, output %r, stderr %r"
+                              % (label, o.rc, o.out[:120], o.err[-200:]), tool=tool, argv=argv)
+            elif o.rc != 0 and not o.err.strip():
+                ctx.violation("%s:fails-silently" % tool, "%s: exit status %r without a message" % (label, o.rc), tool=tool, argv=argv)
+            ctx.judged((tool, tuple(a.replace(root, "") for a in argv)), nontrivial=True, sample={"command": label, "status": o.rc})
+    finally:
+        zoo.close()
+
+
 def case_outside_git_tree(ctx):
     """Real processes started in a directory that is not inside any git work tree (cnfgen/info.py asks git for the version)."""
     oc.selfcheck()
@@ -1966,6 +2017,7 @@ def workload(tier, seed):
     yield "unseekable", {}
     yield "streams", {}
     yield "witnesses", {}          # first: the minimal command line of a mechanism becomes its replay
+    yield "odd_input_files", {}
     for lo in range(0, 100, 12):
         yield "optimized_interpreters", {"lo": lo, "hi": lo + 12}
     for lo in range(0, 4800, 400):
